@@ -23,13 +23,22 @@ Theorem c19_noninterference_partial : forall e s t,
 Proof. exact noninterference_partial_all. Qed.
 Print Assumptions c19_noninterference_partial.
 
-(* Full statement for every channel set with at most one tel send channel per country (no hypothesis on URNs) *)
-Theorem c19_noninterference_single_tel_channel : forall e s t,
-  redact e = true -> unambiguous_tel (s_channels s) -> session_twin s t ->
+(* Full statement whenever no tel URN of the session (contact, parent's and child's contact) has more than one
+   candidate channel: unambiguous_tel s = for every tel URN u, at most one tel send channel passes GetForURN's
+   filter for u's derived country.  No hypothesis on paths. *)
+Theorem c19_noninterference_unambiguous_tel : forall e s t,
+  redact e = true -> unambiguous_tel s -> session_twin s t ->
   forall (Out : Type) (template : xv -> env_view -> Out),
     template (root_context e s) (merged_env e s) = template (root_context e t) (merged_env e t).
 Proof. exact noninterference_unambiguous. Qed.
-Print Assumptions c19_noninterference_single_tel_channel.
+Print Assumptions c19_noninterference_unambiguous_tel.
+
+(* in particular for deployments with at most one tel send channel per country (any number of countries), when
+   the country of every tel URN can be derived *)
+Theorem c19_one_tel_channel_per_country : forall s,
+  one_tel_channel_per_country (s_channels s) -> tel_countries_known s -> unambiguous_tel s.
+Proof. exact per_country_unambiguous. Qed.
+Print Assumptions c19_one_tel_channel_per_country.
 
 (* the unrestricted statement is false: two tel channels of one country, twins with different leading digits *)
 Theorem c19_noninterference_refuted :
@@ -37,11 +46,15 @@ Theorem c19_noninterference_refuted :
 Proof. exact noninterference_refuted_witness. Qed.
 Print Assumptions c19_noninterference_refuted.
 
-(* ... and that is the whole extent of the dependence: for ALL channel sets, with every member named "channel"
-   erased (blank), the root contexts of twin sessions are equal under the policy *)
+(* ... and the extent of the dependence, for ALL channel sets: with every member named "channel" erased (blank) the
+   root contexts of twin sessions are equal under the policy; the merged environment can differ too, but only in
+   its country and only when the countries of the channels chosen for the twins differ (it does: RedactProofs
+   merged_country_depends_on_path, countries RW / UG) *)
 Theorem c19_noninterference_up_to_channel : forall e s t, redact e = true -> session_twin s t ->
-  blank "channel" (root_context e s) = blank "channel" (root_context e t).
-Proof. exact root_context_up_to_channel. Qed.
+  blank "channel" (root_context e s) = blank "channel" (root_context e t) /\
+  v_redact (merged_env e s) = v_redact (merged_env e t) /\
+  (chosen_country s = chosen_country t -> merged_env e s = merged_env e t).
+Proof. exact up_to_channel_all. Qed.
 Print Assumptions c19_noninterference_up_to_channel.
 
 (* contacts without a name are shown by id (and named ones by name, whatever the policy) wherever a contact or
